@@ -201,6 +201,9 @@ def contains(ctx, fr, container, x):
         r, exc = lift(lambda s, y: y in s, container, x)
         raise_if(ctx, fr, exc, "TypeError")
         return raw_bool(r)
+    if container is None:
+        raise_if(ctx, fr, True, "TypeError")
+        return False
     raise Unsupported("`in` on %r" % (container,))
 
 
@@ -932,7 +935,7 @@ def _each_fce(ctx, ref):
                 yield c, i, cond
 
 
-def _key_rows(ctx, key):
+def _key_rows(ctx, key, write=False):
     """[(key index, cond)] for a python/atom key; keys outside the universe's key list are
     Unsupported (the harness chooses the key list)"""
     u = ctx.u
@@ -942,14 +945,15 @@ def _key_rows(ctx, key):
             s = ATOMS.vals[i]
             if isinstance(s, str) and s in u.keys:
                 rows.append((u.keys.index(s), EQ(key.t, i)))
-            elif isinstance(s, str):
+            elif isinstance(s, str) and write:
                 raise Unsupported("data key %r outside the key universe" % (s,))
             # non-string candidates (None) are never keys of a data dictionary: no row
         return rows
     if key in u.keys:
         return [(u.keys.index(key), True)]
-    if isinstance(key, str):
+    if isinstance(key, str) and write:
         raise Unsupported("data key %r outside the key universe %s" % (key, u.keys))
+    # reading a key outside the universe's key list: no element carries it (bound of the universe)
     return []
 
 
@@ -982,7 +986,7 @@ def data_set(ctx, fr, hd, key, val, present_flag=True):
     g = live(ctx, fr)
     a = to_atom(val) if present_flag else None
     for c, i, cond in _each_fce(ctx, hd.ref):
-        for k, ck in _key_rows(ctx, key):
+        for k, ck in _key_rows(ctx, key, write=True):
             hit = AND(g, cond, ck)
             if hit is False:
                 continue
